@@ -45,7 +45,15 @@ theorem scan_inv {σ ρ : Type} (step : σ → UInt8 → Step σ ρ) (atEnd : σ
 theorem Path.add_elems (p p' : Path) (n : Nat) (h : p.add n = .ok p') : p'.elems = p.elems ++ [p.head n] := by
   unfold Path.add at h
   split at h
-  · cases h
+  · split at h
+    · cases h
+    · rename_i hc
+      simp only [Bool.or_eq_true, bne_iff_ne, ne_eq, Bool.not_eq_eq_eq_not, Bool.not_true, not_or,
+        Decidable.not_not, Bool.not_eq_false] at hc
+      simp only [Except.ok.injEq] at h; rw [← h]
+      have he : p.elems = [] := by simpa using hc.2
+      rw [he, hc.1]
+      simp [Path.head]
   · split at h
     · cases h
     · split at h
